@@ -157,7 +157,7 @@ var IntentKinds = []string{
 // SpecificIntentKinds are the version-specific kinds generic ones resolve to.
 var SpecificIntentKinds = []string{
 	"v1pay", "v1sf", "v1form", "v1rev", "v1proof",
-	"v2pay", "v2sf", "v2form", "v2rev", "v2renew", "v2proof", "v2expire", "v2attest", "v2foundation", "v2arb",
+	"v2pay", "v2merge", "v2sf", "v2form", "v2rev", "v2renew", "v2proof", "v2expire", "v2attest", "v2foundation", "v2arb",
 }
 
 type ephOut struct {
@@ -761,6 +761,47 @@ func (bb *BlockBuilder) Add(in Intent) bool {
 		if in.Bad == 2 {
 			txn.SiacoinInputs[0].SatisfiedPolicy.Signatures[0][5] ^= 0x10
 		}
+		bb.addV2(txn, in.Kind)
+		return true
+
+	case "v2merge":
+		// two inputs (ephemeral ones preferred when Eph is set), one output:
+		// gives transaction sets diamond-shaped dependencies
+		if !bb.v2Allowed() {
+			bb.skip(in, "regime")
+			return false
+		}
+		var ins []types.SiacoinElement
+		if in.Eph {
+			for _, i := range bb.ephCandidates(who, true) {
+				e := bb.eph[i]
+				ins = append(ins, types.SiacoinElement{ID: e.id, StateElement: types.StateElement{LeafIndex: types.UnassignedLeafIndex}, SiacoinOutput: e.out})
+			}
+		}
+		for _, e := range bb.scCandidates(who) {
+			ins = append(ins, e.Copy())
+		}
+		if len(ins) < 2 {
+			bb.skip(in, "no-input")
+			return false
+		}
+		a := mod(in.Pick, len(ins))
+		b := mod(in.Pick+1+mod(in.A, len(ins)-1), len(ins))
+		if a == b {
+			b = mod(a+1, len(ins))
+		}
+		txn := types.V2Transaction{SiacoinInputs: []types.V2SiacoinInput{{Parent: ins[a]}, {Parent: ins[b]}}}
+		sum := ins[a].SiacoinOutput.Value.Add(ins[b].SiacoinOutput.Value)
+		amt := amountOf(sum, in.Amt)
+		if amt.IsZero() {
+			bb.skip(in, "dust")
+			return false
+		}
+		txn.SiacoinOutputs = append(txn.SiacoinOutputs, types.SiacoinOutput{Address: Actors[to].Addr, Value: amt})
+		if r := sum.Sub(amt); !r.IsZero() {
+			txn.SiacoinOutputs = append(txn.SiacoinOutputs, types.SiacoinOutput{Address: Actors[who].Addr, Value: r})
+		}
+		SignV2(cs, &txn)
 		bb.addV2(txn, in.Kind)
 		return true
 
